@@ -107,8 +107,12 @@ func limitChunkMatches(file *zoekt.FileMatch, limit int) int {
 					}
 				}
 				if n > 0 {
-					// Should be impossible.
-					log.Panicf("Failed to find enough newlines when truncating Content, %d left over, %d ranges", n, len(cm.Ranges))
+					// Happens when the last range sits on the empty line after
+					// the final newline of the file (an empty match at the end
+					// of the file): Content has fewer lines than the line
+					// numbers suggest. Keep the content rather than taking
+					// down the server from inside a search.
+					log.Printf("Failed to find enough newlines when truncating Content, %d left over, %d ranges", n, len(cm.Ranges))
 				}
 			}
 
